@@ -4,7 +4,6 @@ From Verif Require Import Lib.Base Model.C15_Sync Proofs.C15.
 From Coq Require Import ZifyBool ZifyN ZifyNat Permutation.
 Local Open Scope N_scope.
 
-Definition opt_list {A} (o : option (list A)) : list A := match o with Some l => l | None => [] end.
 Definition msg_validator (m : msg) : N := snd (fst m).
 
 (* ============================================================================================ *)
@@ -635,4 +634,105 @@ Lemma no_aggregator_no_job : forall p mem acct f,
 Proof.
   intros p mem acct f H. pose proof (fire_agg_eq p mem acct f) as He. rewrite H in He.
   destruct (f_root f); [destruct (message_ok _ _ _ _ _)|]; injection He as -> ->; auto.
+Qed.
+
+(* ============================================================================================ *)
+(* 7. Independence stated on the inputs of the controller: the account manager holds fewer       *)
+(*    accounts.                                                                                  *)
+
+Definition with_accts (i : sched_in) (a : list N) : sched_in :=
+  {| si_epoch := si_epoch i; si_cur := si_cur i; si_notcur := si_notcur i; si_indices := si_indices i;
+     si_duties := si_duties i; si_accts := Some a |}.
+
+Lemma schedule_jobs_with_accts : forall p i a a', si_accts i = Some a ->
+  so_jobs (schedule p (with_accts i a')) = so_jobs (schedule p i).
+Proof.
+  intros p i a a' Ha. unfold schedule. cbn [with_accts si_indices si_cur si_epoch si_duties si_accts si_notcur].
+  rewrite Ha. reflexivity.
+Qed.
+
+Lemma independence_accounts : forall p i a a' (bad : N -> bool) f m,
+  si_accts i = Some a ->
+  (forall v, (bad v = false -> (In v a' <-> In v a)) /\ (In v a' -> In v a)) ->
+  bad (msg_validator m) = false ->
+  In m (opt_list (o_submitted (fire_scheduled p i f))) ->
+  In m (opt_list (o_submitted (fire_scheduled p (with_accts i a') f))).
+Proof.
+  intros p i a a' bad f m Ha Hsub Hb Hin. unfold fire_scheduled in *.
+  rewrite (schedule_jobs_with_accts p i a a' Ha).
+  destruct (has_prepare (so_jobs (schedule p i)) (f_slot f)); [|exact Hin].
+  assert (Hmem : members (with_accts i a') = members i) by reflexivity. rewrite Hmem.
+  apply (independence_messages p (members i) bad (has_account i) (has_account (with_accts i a')) f f m); auto.
+  - intros v. unfold has_account. cbn [with_accts si_accts si_indices]. rewrite Ha.
+    destruct (Hsub v) as (H1 & H2). split.
+    + intros Hg. specialize (H1 Hg).
+      destruct (memN v (si_indices i)); [|rewrite !andb_false_r; reflexivity]. rewrite !andb_true_r.
+      destruct (memN v a') eqn:E1, (memN v a) eqn:E2; try reflexivity.
+      * apply memN_In in E1. apply H1 in E1. apply memN_In in E1. congruence.
+      * apply memN_In in E2. apply H1 in E2. apply memN_In in E2. congruence.
+    + intros H. apply andb_true_iff in H as [H3 H4]. apply andb_true_iff. split; [|exact H4].
+      apply memN_In. apply H2. apply memN_In. exact H3.
+  - unfold same_for_others. repeat split; reflexivity.
+Qed.
+
+(* ============================================================================================ *)
+(* 8. Independence as an equation: the sub-list of the other members' messages is the same list. *)
+
+Definition others (bad : N -> bool) (m : msg) : bool := negb (bad (msg_validator m)).
+
+Lemma filter_flat_map_filter : forall (A B : Type) (q : B -> bool) (a a' : A -> bool) (g g' : A -> list B) l,
+  (forall v, filter q (if a v then g v else []) = filter q (if a' v then g' v else [])) ->
+  filter q (flat_map g (filter a l)) = filter q (flat_map g' (filter a' l)).
+Proof.
+  intros A B q a a' g g' l H. induction l as [|v l IH]; [reflexivity|]. cbn [filter].
+  specialize (H v). destruct (a v), (a' v); cbn [flat_map]; rewrite ?filter_app, ?IH; cbn [filter] in H;
+    rewrite ?H; try reflexivity.
+  - rewrite <- H. reflexivity.
+Qed.
+
+Lemma messages_filter_others : forall p mem bad acct acct' f f' r,
+  fewer_accounts bad acct acct' -> same_for_others bad f f' ->
+  filter (others bad) (messages p mem acct f r) = filter (others bad) (messages p mem acct' f' r).
+Proof.
+  intros p mem bad acct acct' f f' r Hacc Hsame. unfold messages, signers.
+  destruct Hsame as (Hs & _ & _ & _ & _ & _ & _ & Hv).
+  apply filter_flat_map_filter. intros v. cbv zeta.
+  destruct (bad v) eqn:Eb.
+  - (* a member of [bad]: whatever it produces is filtered out on both sides *)
+    assert (Hdrop : forall (g : fire_in) (a : bool),
+              filter (others bad) (if a then (if is_zero (root_sig p g r v) then [] else [(f_slot g, r, v, root_sig p g r v)]) else []) = []).
+    { intros g a. destruct a; [|reflexivity]. destruct (is_zero (root_sig p g r v)); [reflexivity|].
+      cbn. unfold others, msg_validator. cbn. rewrite Eb. reflexivity. }
+    rewrite !Hdrop. reflexivity.
+  - destruct (Hacc v) as (Ha & _). rewrite (Ha Eb). destruct (acct v); [|reflexivity].
+    destruct (Hv v Eb) as (Hz & _). unfold root_sig. rewrite Hz, Hs. reflexivity.
+Qed.
+
+Lemma fire_submitted_flat : forall p mem acct f,
+  sel_stage_ok p mem acct f = true ->
+  opt_list (o_submitted (fire p mem acct f)) =
+    match f_root f with
+    | Some r => if f_root_err f then [] else messages p mem acct f r
+    | None => []
+    end.
+Proof.
+  intros p mem acct f Hst. rewrite fire_submitted_eq, Hst.
+  destruct (f_root f) as [r|]; [|reflexivity].
+  destruct (signers mem acct) eqn:E.
+  - cbn. rewrite (messages_nil_signers p mem acct f r E). destruct (f_root_err f); reflexivity.
+  - destruct (f_root_err f); reflexivity.
+Qed.
+
+Lemma independence_exact : forall p mem bad acct acct' f f',
+  fewer_accounts bad acct acct' -> same_for_others bad f f' -> f_sel_err f = false ->
+  filter (others bad) (opt_list (o_submitted (fire p mem acct f)))
+  = filter (others bad) (opt_list (o_submitted (fire p mem acct' f'))).
+Proof.
+  intros p mem bad acct acct' f f' Hacc Hsame Hse.
+  pose proof Hsame as (_ & Hroot & Hse' & Hre & _).
+  assert (H1 : sel_stage_ok p mem acct f = true) by (unfold sel_stage_ok; rewrite Hse; destruct (sel_pairs _ _ _); reflexivity).
+  assert (H2 : sel_stage_ok p mem acct' f' = true) by (unfold sel_stage_ok; rewrite Hse', Hse; destruct (sel_pairs _ _ _); reflexivity).
+  rewrite (fire_submitted_flat _ _ _ _ H1), (fire_submitted_flat _ _ _ _ H2), Hroot, Hre.
+  destruct (f_root f) as [r|]; [|reflexivity]. destruct (f_root_err f); [reflexivity|].
+  apply messages_filter_others; assumption.
 Qed.
